@@ -12,8 +12,10 @@
    to the value the generated JavaScript expression has in MiniJS, for every
    state / environment pair related by env_rel (each Soy variable is in the
    generated variable the generator's scope maps it to, or in opt_data).
-   Of the STATEMENT stages print / if / let / switch / foreach / for-range / css are proved (below); calls,
-   the template wrapper and msg are NOT: they are covered by translation validation only
+   Of the STATEMENT stages print / if / let / switch / foreach / for-range / css and call (all forms: data, value and
+   content parameters) are proved (below), and the template wrapper with a theorem for every template of a program built
+   from these stages, and messages without plural rendered without a bundle; plural, messages from a bundle and the file level
+   are NOT: they are covered by translation validation only
    (go/cmd/soyverif/c04.go: every generated program is translated by the real
    soyjs.Write, run by node with soyutils.js and compared with the Go render).
    Stages kept for the record:
@@ -33,10 +35,18 @@
                                   2^53, same loop functions -- proved below (xInit_n / xStep_n / xLimit_n =
                                   Math.max(0, Math.ceil((n - xInit_n) / xStep_n)), x_n = xInit_n + xIndex_n * xStep_n)
      gen_correct_partial_css    : {css sfx} / {css e, sfx} with a scalar e -- proved below (same step)
-     gen_correct_partial_calls  : call / param / data=           -- not proved
+     gen_correct_partial_call   : {call t}, data="all", data="$e" (a map with identifier keys), {param k: e /} and
+                                  {param k}..{/param} -- proved below: the same simulation step relative to a context that says
+                                  what a callee writes on both sides, and (C04_go_call_correct, C04_js_call_correct) that
+                                  context discharged for every program by induction on the call depth (recursion included)
      gen_correct_partial_template : the template wrapper (function header, opt_data defaulting, var output, return) and
-                                  with it a whole-template theorem -- not proved
-     gen_correct_partial_msg    : msg / plural with a bundle     -- not proved
+                                  with it a theorem for every template of a program of the proved stages -- proved below
+                                  (C04_gen_correct_partial_template; the entry point Execute: C04_go_render_correct); the
+                                  FILE level (visitSoyFile: namespace declarations, the chain of counters from one template
+                                  to the next, the imports) and the reading of the emitted text as that function table by a
+                                  JavaScript engine are not part of it
+     gen_correct_partial_msg    : {msg}..{/msg} without plural and without a bundle (raw text, print and call placeholders) -- proved
+                                  below (same step); plural, and messages rendered from a translation bundle -- not proved
    MiniJS idealises JavaScript: numbers are integers (a result beyond 2^53 is
    OutOfModel), objects have no prototype chain, the operators are defined on
    the operand kinds of the subset only. *)
@@ -44,7 +54,7 @@
 From Soy Require Import Proofs.SourceTieJs Proofs.SourceTieJsScope Proofs.SourceTieJsText.
 From Soy Require Import Model.Bytes Model.Num Model.Values Model.Outcome Model.Ast Model.JsGen Model.MiniJS
   Model.Escape Model.Directives Model.Print Generated.Tables Model.Interp
-  Proofs.MiniJSProofs Proofs.MiniJSPrint Proofs.MiniJSStmt Proofs.MiniJSCtl Proofs.MiniJSGo Proofs.MiniJSGen Proofs.MiniJSSim.
+  Model.MiniJSProg Proofs.MiniJSProofs Proofs.MiniJSPrint Proofs.MiniJSStmt Proofs.MiniJSCtl Proofs.MiniJSGo Proofs.MiniJSGen Proofs.MiniJSSim Proofs.MiniJSCall.
 Open Scope N_scope.
 
 (* the Soy meaning restricted to the subset IS the walker of Interp.v, and the
@@ -142,9 +152,15 @@ Proof. exact print_text_agree. Qed.
 
 (* the statement stages: raw text, {print e|ds}, {let $x: e /}, {if}/{elseif}/{else} and {switch}/{case}/{default},
    with nested blocks.  One simulation step:
+   A statement is relative to a context cc (callctx: the data of the template being rendered -- what data="all" passes
+   on --, the text a callee writes for given data, the JavaScript function of a callee, a fuel that suffices for every
+   call); callctx_ok says the context is right on both sides (for a program: C04_go_call_correct / C04_js_call_correct
+   below; cc_nocalls for statements without calls) and that the generator calls a template by its own name (the ES5
+   formatter: cn_ok).
    HYPOTHESES (the relation sim between a state st of the Go renderer's model, a JavaScript environment je and a
-   state jst of the generator): the writer does not fail (no capture buffer, no write budget); the scope stack is not
-   empty; every Soy variable is where the generator's scope says it is (env_rel); the generated names in scope and
+   state jst of the generator): the writer does not fail (no capture buffer, no write budget); the innermost frame of
+   the scope stack is not the entered one and the frames alldata() returns hold the template's data (dinv), which is
+   also what opt_data holds (datarel); every Soy variable is where the generator's scope says it is (env_rel); the generated names in scope and
    the buffer variable have counters up to the generator's counter, and the buffer variable is none of them and not
    opt_ijData (ginv); the buffer variable holds old; the generator's autoescape mode is the renderer's.
    [sout] is the subset semantics: the bytes written and the environment afterwards (None = error or outside the subset).
@@ -156,24 +172,26 @@ Proof. exact print_text_agree. Qed.
    (JS)  executing the MiniJS statement (sgen ..) succeeds;
    (Gen) walking the same node in JsGen emits exactly the chunks of that MiniJS statement at the current indentation;
    and the three resulting states satisfy the hypotheses again, with old ++ text in the buffer variable. *)
-Theorem C04_gen_correct_partial_stmt : forall cf o lv st je jst s fuel text env' old,
-  c_oblig cf = [] -> (sdepth s < fuel)%nat ->
+Theorem C04_gen_correct_partial_stmt : forall cf o cc lv st je jst s fuel text env' old,
+  c_oblig cf = [] -> callctx_ok cf o cc -> (cc_fuel cc + sdepth s < fuel)%nat ->
   swf lv s = true -> lvok lv (j_scope jst) ->
-  bufs st = [] -> calls_left st = None -> bytes_left st = None -> ctx st <> [] ->
+  bufs st = [] -> calls_left st = None -> bytes_left st = None -> dinv (cc_denv cc) (ctx st) ->
   env_rel (j_scope jst) (c_ij cf) (sc_lookup (ctx st)) je ->
+  datarel (cc_denv cc) (je_data je) ->
   ginv (j_scope jst) (j_n jst) (j_buf jst) ->
   assoc_s (j_buf jst) (je_vars je) = Some (JStr old) ->
   j_auto jst = mode st ->
-  sout (c_ij cf) (mode st) go_print_text (sc_lookup (ctx st)) s = Some (text, env') ->
+  sout (c_ij cf) (mode st) go_print_text (cc_denv cc) (cc_callee cc) (sc_lookup (ctx st)) s = Some (text, env') ->
   exists st' ws rv je' jst',
     let j := fst (sgen (mode st) (j_buf jst) (j_scope jst) (j_n jst) s) in
     walk cf fuel (snode s) st = (Ok rv, st') /\ out st' = rev ws ++ out st /\ concat_b ws = text
     /\ mode st' = mode st /\ tl (ctx st') = tl (ctx st) /\ (forall k, sc_lookup (ctx st') k = env' k)
-    /\ js_exec je j = Ok je' /\ je_data je' = je_data je
+    /\ js_exec (cc_jfn cc) je j = Ok je' /\ je_data je' = je_data je
     /\ jwalk o fuel (snode s) jst = Ok (tt, jst') /\ j_out jst' = rev (sprint (j_indent jst) j) ++ j_out jst
     /\ j_indent jst' = j_indent jst /\ j_buf jst' = j_buf jst /\ tl (j_scope jst') = tl (j_scope jst)
-    /\ bufs st' = [] /\ calls_left st' = None /\ bytes_left st' = None /\ ctx st' <> []
+    /\ bufs st' = [] /\ calls_left st' = None /\ bytes_left st' = None /\ dinv (cc_denv cc) (ctx st')
     /\ env_rel (j_scope jst') (c_ij cf) (sc_lookup (ctx st')) je'
+    /\ datarel (cc_denv cc) (je_data je')
     /\ ginv (j_scope jst') (j_n jst') (j_buf jst')
     /\ assoc_s (j_buf jst') (je_vars je') = Some (JStr (old ++ text))
     /\ j_auto jst' = mode st' /\ lvok lv (j_scope jst').
@@ -183,34 +201,34 @@ Print Assumptions C04_gen_correct_partial_stmt.
 (* its instances by stage name ([sim] is the conjunction of the hypotheses above, [sim_step] the conclusion above, both
    for any writer that does not fail: the output without a budget, or a capture buffer of renderBlock -- [wrote st st' ws]
    says the writes ws went to the innermost capture buffer if there is one, to the output otherwise) *)
-Theorem C04_gen_correct_partial_if : forall cf o lv st je jst c th rest fuel text env' old,
-  c_oblig cf = [] -> (sdepth (SIf c th rest) < fuel)%nat -> sim cf st je jst old ->
+Theorem C04_gen_correct_partial_if : forall cf o cc lv st je jst c th rest fuel text env' old,
+  c_oblig cf = [] -> callctx_ok cf o cc -> (cc_fuel cc + sdepth (SIf c th rest) < fuel)%nat -> sim cf cc st je jst old ->
   swf lv (SIf c th rest) = true -> lvok lv (j_scope jst) ->
-  sout (c_ij cf) (mode st) go_print_text (sc_lookup (ctx st)) (SIf c th rest) = Some (text, env') ->
-  sim_step cf o lv st je jst (SIf c th rest) fuel text env' old.
+  sout (c_ij cf) (mode st) go_print_text (cc_denv cc) (cc_callee cc) (sc_lookup (ctx st)) (SIf c th rest) = Some (text, env') ->
+  sim_step cf o cc lv st je jst (SIf c th rest) fuel text env' old.
 Proof. exact gen_correct_partial_if. Qed.
 Print Assumptions C04_gen_correct_partial_if.
-Theorem C04_gen_correct_partial_let : forall cf o lv st je jst name e fuel text env' old,
-  c_oblig cf = [] -> (sdepth (SLet name e) < fuel)%nat -> sim cf st je jst old ->
+Theorem C04_gen_correct_partial_let : forall cf o cc lv st je jst name e fuel text env' old,
+  c_oblig cf = [] -> callctx_ok cf o cc -> (cc_fuel cc + sdepth (SLet name e) < fuel)%nat -> sim cf cc st je jst old ->
   swf lv (SLet name e) = true -> lvok lv (j_scope jst) ->
-  sout (c_ij cf) (mode st) go_print_text (sc_lookup (ctx st)) (SLet name e) = Some (text, env') ->
-  sim_step cf o lv st je jst (SLet name e) fuel text env' old.
+  sout (c_ij cf) (mode st) go_print_text (cc_denv cc) (cc_callee cc) (sc_lookup (ctx st)) (SLet name e) = Some (text, env') ->
+  sim_step cf o cc lv st je jst (SLet name e) fuel text env' old.
 Proof. exact gen_correct_partial_let. Qed.
 Print Assumptions C04_gen_correct_partial_let.
 (* {let $x}..{/let}: the Go renderer captures the block in a buffer of its own (renderBlock) and binds the string; the
    JavaScript declares  var x_n = '';  lets the block append to it, and binds the name afterwards *)
-Theorem C04_gen_correct_partial_let_content : forall cf o lv st je jst name body fuel text env' old,
-  c_oblig cf = [] -> (sdepth (SLetC name body) < fuel)%nat -> sim cf st je jst old ->
+Theorem C04_gen_correct_partial_let_content : forall cf o cc lv st je jst name body fuel text env' old,
+  c_oblig cf = [] -> callctx_ok cf o cc -> (cc_fuel cc + sdepth (SLetC name body) < fuel)%nat -> sim cf cc st je jst old ->
   swf lv (SLetC name body) = true -> lvok lv (j_scope jst) ->
-  sout (c_ij cf) (mode st) go_print_text (sc_lookup (ctx st)) (SLetC name body) = Some (text, env') ->
-  sim_step cf o lv st je jst (SLetC name body) fuel text env' old.
+  sout (c_ij cf) (mode st) go_print_text (cc_denv cc) (cc_callee cc) (sc_lookup (ctx st)) (SLetC name body) = Some (text, env') ->
+  sim_step cf o cc lv st je jst (SLetC name body) fuel text env' old.
 Proof. exact gen_correct_partial_let_content. Qed.
 Print Assumptions C04_gen_correct_partial_let_content.
-Theorem C04_gen_correct_partial_switch : forall cf o lv st je jst v cs fuel text env' old,
-  c_oblig cf = [] -> (sdepth (SSwitch v cs) < fuel)%nat -> sim cf st je jst old ->
+Theorem C04_gen_correct_partial_switch : forall cf o cc lv st je jst v cs fuel text env' old,
+  c_oblig cf = [] -> callctx_ok cf o cc -> (cc_fuel cc + sdepth (SSwitch v cs) < fuel)%nat -> sim cf cc st je jst old ->
   swf lv (SSwitch v cs) = true -> lvok lv (j_scope jst) ->
-  sout (c_ij cf) (mode st) go_print_text (sc_lookup (ctx st)) (SSwitch v cs) = Some (text, env') ->
-  sim_step cf o lv st je jst (SSwitch v cs) fuel text env' old.
+  sout (c_ij cf) (mode st) go_print_text (cc_denv cc) (cc_callee cc) (sc_lookup (ctx st)) (SSwitch v cs) = Some (text, env') ->
+  sim_step cf o cc lv st je jst (SSwitch v cs) fuel text env' old.
 Proof. exact gen_correct_partial_switch. Qed.
 Print Assumptions C04_gen_correct_partial_switch.
 
@@ -221,42 +239,43 @@ Print Assumptions C04_gen_correct_partial_switch.
      var x_n = xList_n[xIndex_n]; body } [} else { ie }]
    whose MiniJS meaning re-reads the index and the limit each time round (js_for); the generated names of every round's
    body are fresh with respect to the four loop variables (the frame property of C04_js_exec_correct) *)
-Theorem C04_gen_correct_partial_loops : forall cf o lv st je jst x e body hasie ie fuel text env' old,
-  c_oblig cf = [] -> (sdepth (SFor x e body hasie ie) < fuel)%nat -> sim cf st je jst old ->
+Theorem C04_gen_correct_partial_loops : forall cf o cc lv st je jst x e body hasie ie fuel text env' old,
+  c_oblig cf = [] -> callctx_ok cf o cc -> (cc_fuel cc + sdepth (SFor x e body hasie ie) < fuel)%nat -> sim cf cc st je jst old ->
   swf lv (SFor x e body hasie ie) = true -> lvok lv (j_scope jst) ->
-  sout (c_ij cf) (mode st) go_print_text (sc_lookup (ctx st)) (SFor x e body hasie ie) = Some (text, env') ->
-  sim_step cf o lv st je jst (SFor x e body hasie ie) fuel text env' old.
+  sout (c_ij cf) (mode st) go_print_text (cc_denv cc) (cc_callee cc) (sc_lookup (ctx st)) (SFor x e body hasie ie) = Some (text, env') ->
+  sim_step cf o cc lv st je jst (SFor x e body hasie ie) fuel text env' old.
 Proof. exact gen_correct_partial_loops. Qed.
 Print Assumptions C04_gen_correct_partial_loops.
 
 (* {for $x in range(..)} with one to three arguments of the expression subset (integers), a positive step, limit - init
    within 2^53: the list the renderer builds (range_list, any sufficient fuel) has Math.max(0, Math.ceil((limit - init) / step))
    elements init + k * step, which is what the generated counting loop binds x_n to *)
-Theorem C04_gen_correct_partial_for_range : forall cf o lv st je jst x a1 rest body hasie ie fuel text env' old,
-  c_oblig cf = [] -> (sdepth (SForRange x a1 rest body hasie ie) < fuel)%nat -> sim cf st je jst old ->
+Theorem C04_gen_correct_partial_for_range : forall cf o cc lv st je jst x a1 rest body hasie ie fuel text env' old,
+  c_oblig cf = [] -> callctx_ok cf o cc -> (cc_fuel cc + sdepth (SForRange x a1 rest body hasie ie) < fuel)%nat -> sim cf cc st je jst old ->
   swf lv (SForRange x a1 rest body hasie ie) = true -> lvok lv (j_scope jst) ->
-  sout (c_ij cf) (mode st) go_print_text (sc_lookup (ctx st)) (SForRange x a1 rest body hasie ie) = Some (text, env') ->
-  sim_step cf o lv st je jst (SForRange x a1 rest body hasie ie) fuel text env' old.
+  sout (c_ij cf) (mode st) go_print_text (cc_denv cc) (cc_callee cc) (sc_lookup (ctx st)) (SForRange x a1 rest body hasie ie) = Some (text, env') ->
+  sim_step cf o cc lv st je jst (SForRange x a1 rest body hasie ie) fuel text env' old.
 Proof. exact gen_correct_partial_for_range. Qed.
 Print Assumptions C04_gen_correct_partial_for_range.
 
 (* {css sfx} / {css e, sfx} (e of the expression subset with a scalar value): one Write of String(e) + "-" + sfx on the Go
    side, the two statements  buf += e + '-';  buf += 'sfx';  on the JavaScript side *)
-Theorem C04_gen_correct_partial_css : forall cf o lv st je jst e sfx fuel text env' old,
-  c_oblig cf = [] -> (sdepth (SCss e sfx) < fuel)%nat -> sim cf st je jst old ->
+Theorem C04_gen_correct_partial_css : forall cf o cc lv st je jst e sfx fuel text env' old,
+  c_oblig cf = [] -> callctx_ok cf o cc -> (cc_fuel cc + sdepth (SCss e sfx) < fuel)%nat -> sim cf cc st je jst old ->
   swf lv (SCss e sfx) = true -> lvok lv (j_scope jst) ->
-  sout (c_ij cf) (mode st) go_print_text (sc_lookup (ctx st)) (SCss e sfx) = Some (text, env') ->
-  sim_step cf o lv st je jst (SCss e sfx) fuel text env' old.
+  sout (c_ij cf) (mode st) go_print_text (cc_denv cc) (cc_callee cc) (sc_lookup (ctx st)) (SCss e sfx) = Some (text, env') ->
+  sim_step cf o cc lv st je jst (SCss e sfx) fuel text env' old.
 Proof. exact gen_correct_partial_css. Qed.
 Print Assumptions C04_gen_correct_partial_css.
 
 (* the JavaScript side alone says more: every variable other than the buffer whose name, read as a generated name,
    has a counter up to the generator's is left alone (so nothing an enclosing block relies on is overwritten) *)
-Theorem C04_js_exec_correct : forall ij mode buf s sc n env je old text env' j sc' n',
-  ginv sc n buf -> sout ij mode go_print_text env s = Some (text, env') ->
-  env_rel sc ij env je -> assoc_s buf (je_vars je) = Some (JStr old) ->
+Theorem C04_js_exec_correct : forall ij mode denv callee jfn buf s sc n env je old text env' j sc' n',
+  js_callee_ok ij callee jfn ->
+  ginv sc n buf -> sout ij mode go_print_text denv callee env s = Some (text, env') ->
+  env_rel sc ij env je -> assoc_s buf (je_vars je) = Some (JStr old) -> datarel denv (je_data je) ->
   sgen mode buf sc n s = (j, (sc', n')) ->
-  exists je', js_exec je j = Ok je'
+  exists je', js_exec jfn je j = Ok je'
     /\ (env_rel sc' ij env' je' /\ assoc_s buf (je_vars je') = Some (JStr (old ++ text)))
     /\ (je_data je' = je_data je
         /\ forall g, bounded n g -> bstr_eqb g buf = false -> assoc_s g (je_vars je') = assoc_s g (je_vars je)).
@@ -315,9 +334,9 @@ Definition ex_stmt : cstmt :=
                 (KDefault (BCons (SRaw (b "d")) BNil)))))
       (BCons (SRaw (b "C")) BNil))) ENone.
 Example C04_stmt_nonvacuous :
-  (match sout None 1 go_print_text ex_env ex_stmt with Some (t, _) => Some t | None => None end) = Some (b "A&lt;5four5C")
+  (match sout None 1 go_print_text (fun _ => None) (fun _ _ => None) ex_env ex_stmt with Some (t, _) => Some t | None => None end) = Some (b "A&lt;5four5C")
   /\ snd (sgen 1 (b "output") ex_sc2 3 ex_stmt) = (ex_sc2, 6)
-  /\ (match js_exec {| je_vars := [(b "output", JStr []); (b "x_3", JNum 4)]; je_data := JObj [(b "a", JObj [(b "b", JNum 5)])] |}
+  /\ (match js_exec (fun _ _ _ => OutOfModel) {| je_vars := [(b "output", JStr []); (b "x_3", JNum 4)]; je_data := JObj [(b "a", JObj [(b "b", JNum 5)])] |}
                      (fst (sgen 1 (b "output") ex_sc2 3 ex_stmt)) with
       | Ok je' => Some (je_vars je') | _ => None end)
      = Some [(b "output", JStr (b "A&lt;5four5C")); (b "x_3", JNum 4); (b "y_4", JNum 5); (b "t_5", JStr (b "<5")); (b "z_6", JStr (b "four"))]
@@ -396,13 +415,13 @@ Definition ex_for : cstmt :=
 Definition ex_env_l (l : list value) (k : bstr) : option value := if bstr_eqb k (b "a") then Some (VMap 7 [(b "l", VList 8 l)]) else None.
 Example C04_loops_nonvacuous :
   swf [] ex_for = true
-  /\ (match sout None 1 go_print_text (ex_env_l [VInt 10; VInt 20]) ex_for with Some (t, _) => Some t | None => None end) = Some (b "0:10,1:20.")
-  /\ (match sout None 1 go_print_text (ex_env_l []) ex_for with Some (t, _) => Some t | None => None end) = Some (b "none")
-  /\ (match js_exec {| je_vars := [(b "output", JStr [])]; je_data := JObj [(b "a", JObj [(b "l", JArr [JNum 10; JNum 20])])] |}
+  /\ (match sout None 1 go_print_text (fun _ => None) (fun _ _ => None) (ex_env_l [VInt 10; VInt 20]) ex_for with Some (t, _) => Some t | None => None end) = Some (b "0:10,1:20.")
+  /\ (match sout None 1 go_print_text (fun _ => None) (fun _ _ => None) (ex_env_l []) ex_for with Some (t, _) => Some t | None => None end) = Some (b "none")
+  /\ (match js_exec (fun _ _ _ => OutOfModel) {| je_vars := [(b "output", JStr [])]; je_data := JObj [(b "a", JObj [(b "l", JArr [JNum 10; JNum 20])])] |}
                      (fst (sgen 1 (b "output") [[]] 3 ex_for)) with
       | Ok je' => Some (je_vars je') | _ => None end)
      = Some [(b "output", JStr (b "0:10,1:20.")); (b "vList_4", JArr [JNum 10; JNum 20]); (b "vLimit_4", JNum 2); (b "vIndex_4", JNum 2); (b "v_4", JNum 20)]
-  /\ (match js_exec {| je_vars := [(b "output", JStr [])]; je_data := JObj [(b "a", JObj [(b "l", JArr [])])] |}
+  /\ (match js_exec (fun _ _ _ => OutOfModel) {| je_vars := [(b "output", JStr [])]; je_data := JObj [(b "a", JObj [(b "l", JArr [])])] |}
                      (fst (sgen 1 (b "output") [[]] 3 ex_for)) with
       | Ok je' => assoc_s (b "output") (je_vars je') | _ => None end) = Some (JStr (b "none"))
   /\ render_chunks is_print_tbl (sprint 1 (fst (sgen 1 (b "output") [[]] 3 ex_for))) = b
@@ -434,8 +453,8 @@ Definition ex_range : cstmt :=
     (BCons (SIf (CNot (CLoop LIsLast (b "r"))) (BCons (SRaw (b ";")) BNil) ENone) BNil)))) false BNil.
 Example C04_for_range_nonvacuous :
   swf [] ex_range = true
-  /\ (match sout None 2 go_print_text (fun _ => None) ex_range with Some (t, _) => Some t | None => None end) = Some (b "0=1;1=4;2=7")
-  /\ (match js_exec {| je_vars := [(b "output", JStr [])]; je_data := JObj [] |} (fst (sgen 2 (b "output") [[]] 3 ex_range)) with
+  /\ (match sout None 2 go_print_text (fun _ => None) (fun _ _ => None) (fun _ => None) ex_range with Some (t, _) => Some t | None => None end) = Some (b "0=1;1=4;2=7")
+  /\ (match js_exec (fun _ _ _ => OutOfModel) {| je_vars := [(b "output", JStr [])]; je_data := JObj [] |} (fst (sgen 2 (b "output") [[]] 3 ex_range)) with
       | Ok je' => assoc_s (b "output") (je_vars je') | _ => None end) = Some (JStr (b "0=1;1=4;2=7"))
   /\ render_chunks is_print_tbl (sprint 1 (fst (sgen 2 (b "output") [[]] 3 ex_range))) = b
 "  var rInit_4 = 1;
@@ -455,14 +474,176 @@ Proof. vm_compute. repeat split; reflexivity. Qed.
 
 (* {css $x, bar}{css foo} with x = 4 in the generated variable x_3 *)
 Example C04_css_nonvacuous :
-  (match bout None 1 go_print_text ex_env (BCons (SCss (Some (CVar (b "x") [])) (b "bar")) (BCons (SCss None (b "foo")) BNil)) with Some t => Some t | None => None end)
+  (match bout None 1 go_print_text (fun _ => None) (fun _ _ => None) ex_env (BCons (SCss (Some (CVar (b "x") [])) (b "bar")) (BCons (SCss None (b "foo")) BNil)) with Some t => Some t | None => None end)
     = Some (b "4-barfoo")
-  /\ (match jb_exec {| je_vars := [(b "output", JStr []); (b "x_3", JNum 4)]; je_data := JObj [] |}
+  /\ (match jb_exec (fun _ _ _ => OutOfModel) {| je_vars := [(b "output", JStr []); (b "x_3", JNum 4)]; je_data := JObj [] |}
                       (fst (bgen 1 (b "output") ex_sc2 3 (BCons (SCss (Some (CVar (b "x") [])) (b "bar")) (BCons (SCss None (b "foo")) BNil)))) with
       | Ok je' => assoc_s (b "output") (je_vars je') | _ => None end) = Some (JStr (b "4-barfoo"))
   /\ render_chunks is_print_tbl (bprint 1 (fst (bgen 1 (b "output") ex_sc2 3 (BCons (SCss (Some (CVar (b "x") [])) (b "bar")) (BCons (SCss None (b "foo")) BNil))))) = b
 "  output += x_3 + '-';
   output += 'bar';
   output += 'foo';
+".
+Proof. vm_compute. repeat split; reflexivity. Qed.
+
+(* ================================================================== *)
+(* the call stage and the template wrapper *)
+
+(* {call name}, {call name data="all"}, {call name data="$e"} (e a map whose keys are identifiers) with parameters
+   {param k: e /} and {param k}..{/param} (k an identifier): the Go renderer builds the callee's scope -- a fresh frame that
+   takes the parameters (a content parameter is rendered by renderBlock into a buffer of its own and passed as a string),
+   over nothing, over the frames alldata() returns, or over the map -- and enters the callee; the JavaScript is
+     [var param_n = ''; the block's statements appending to param_n]   per content parameter, in order, BEFORE the call,
+     buf += name(D, opt_sb, opt_ijData);      D = {} | opt_data | e
+     buf += name(soy.$$augmentMap(D, {k: e, k2: param_n, ..}), opt_sb, opt_ijData);      with parameters
+   (the value parameters are therefore evaluated after every content block has run, while the Go renderer evaluates the
+   parameters in order: the proof shows that the blocks leave every variable of the caller alone -- the frame property --
+   and that param_n still holds its text when the object literal is evaluated; MiniJS: an object without prototype
+   chain, so augmentMap is an update of the base object's association list).  The same simulation step as the other
+   stages, relative to the context cc. *)
+Theorem C04_gen_correct_partial_call : forall cf o cc lv st je jst name d ps fuel text env' old,
+  c_oblig cf = [] -> callctx_ok cf o cc -> (cc_fuel cc + sdepth (SCall name d ps) < fuel)%nat -> sim cf cc st je jst old ->
+  swf lv (SCall name d ps) = true -> lvok lv (j_scope jst) ->
+  sout (c_ij cf) (mode st) go_print_text (cc_denv cc) (cc_callee cc) (sc_lookup (ctx st)) (SCall name d ps) = Some (text, env') ->
+  sim_step cf o cc lv st je jst (SCall name d ps) fuel text env' old.
+Proof. exact gen_correct_partial_call. Qed.
+Print Assumptions C04_gen_correct_partial_call.
+
+(* {msg desc=".."}text{$x}{call ..}..{/msg} without plural, rendered WITHOUT a translation bundle (soyhtml walkMsgBody; the
+   generator with o_msgs o = None: part of callctx_ok): raw text and placeholders (print, call: msg_ok) are walked in the
+   scope of the message on both sides; the JavaScript is the statements of the children one after the other.  Messages with
+   {plural}, and messages rendered from a bundle (soyhtml evalMsg, soyjs evalMsgParts), are NOT proved. *)
+Theorem C04_gen_correct_partial_msg : forall cf o cc lv st je jst body fuel text env' old,
+  c_oblig cf = [] -> callctx_ok cf o cc -> (cc_fuel cc + sdepth (SMsg body) < fuel)%nat -> sim cf cc st je jst old ->
+  swf lv (SMsg body) = true -> lvok lv (j_scope jst) ->
+  sout (c_ij cf) (mode st) go_print_text (cc_denv cc) (cc_callee cc) (sc_lookup (ctx st)) (SMsg body) = Some (text, env') ->
+  sim_step cf o cc lv st je jst (SMsg body) fuel text env' old.
+Proof. exact gen_correct_partial_msg. Qed.
+Print Assumptions C04_gen_correct_partial_msg.
+
+(* a context for statements without calls exists for every template data, so the stages above lose nothing *)
+Theorem C04_cc_nocalls_ok : forall cf o denv, cn_ok o -> o_msgs o = None -> envok denv -> callctx_ok cf o (cc_nocalls denv).
+Proof. exact cc_nocalls_ok. Qed.
+
+(* the context discharged for a whole program p (Model/MiniJSProg.v: templates whose bodies are blocks of the statement
+   subset; c04_tout k = what rendering a template writes, by recursion on the call depth k; recursion between templates
+   allowed), by induction on k on both sides:
+   (Go) the registry holds the program's templates; entering the template a call names, with a scope that holds the
+        callee's data, writes c04_tout's text for every fuel from k * c04_D p on and restores scope and mode;
+   (JS) the function of that template in the generated file (c04_jprog: per template the MiniJS block of its body,
+        generated from the counter cnt the generator has reached there) returns that text (c04_jcall: opt_data
+        defaulting, var output = '', the body, return output). *)
+Theorem C04_go_call_correct : forall cf p,
+  c_oblig cf = [] -> (forall x, c_ij cf = Some x -> core_value x = true) -> r_templates (c_reg cf) = c04_templates p ->
+  forall k, go_callee_ok cf (c04_tout (c_ij cf) go_print_text p k) (k * c04_D p).
+Proof. exact go_call_correct. Qed.
+Print Assumptions C04_go_call_correct.
+Theorem C04_js_call_correct : forall cf p,
+  (forall x, c_ij cf = Some x -> core_value x = true) ->
+  forall cnt k, js_callee_ok (c_ij cf) (c04_tout (c_ij cf) go_print_text p k) (c04_jcall (c04_jprog p cnt) k).
+Proof. exact js_call_correct. Qed.
+Print Assumptions C04_js_call_correct.
+
+(* the same for ANY table that holds, under the name of each template, its function generated from some counter -- in
+   particular the table of one file, c04_jprog_chain p n: the counter of scope.go is never reset inside a file, so the
+   next template starts where the body of this one stopped (c04_chain) *)
+Theorem C04_js_call_correct_tbl : forall cf p,
+  (forall x, c_ij cf = Some x -> core_value x = true) ->
+  forall jp, c04_table_ok p jp ->
+  forall k, js_callee_ok (c_ij cf) (c04_tout (c_ij cf) go_print_text p k) (c04_jcall jp k).
+Proof. exact js_call_correct_tbl. Qed.
+Print Assumptions C04_js_call_correct_tbl.
+Theorem C04_jprog_chain_ok : forall p n, c04_table_ok p (c04_jprog_chain p n).
+Proof. exact c04_jprog_chain_ok. Qed.
+(* and that table IS what the generator writes for the templates of a file: walking the soydoc and template nodes of the
+   program in order (state.walk of Model/JsGen.v from counter n, at the file's level) emits, template after template,
+   the function c04_jprog_chain holds for it (c04_file_chunks), each from the counter the chain gives it.  (The lines
+   before them -- header comment, namespace declarations -- and the imports gen_file prepends are not part of it.) *)
+Theorem C04_gen_templates : forall o, cn_ok o -> o_msgs o = None -> forall nsae F p n st bf,
+  (forall t, In t p -> ct_ns_ae t = nsae /\ (S (S (bdepth (ct_body t))) < F)%nat /\ bwf [] (ct_body t) = true) ->
+  shape st 0 bf nsae [[]] n ->
+  exists bf' n', gres (jwalk_list (jwalk o F) (flat_map c04_doc_nodes p)) st (c04_file_chunks o p n) 0 bf' nsae [[]] n'.
+Proof. exact gen_templates. Qed.
+Print Assumptions C04_gen_templates.
+
+(* a template of a program built from the proved stages, the three sides together: whenever the subset semantics gives
+   a text for the template and data at call depth k,
+   (Go)  evalCall entering it (call_enter) writes exactly that text;
+   (JS)  its function in the generated file returns exactly that text, for every data object that holds the data;
+   (Gen) that function -- header, [opt_data = opt_data || {};] var output = ''; the printed block; return output; } --
+         is what visitTemplate emits from the counter cnt name. *)
+Theorem C04_gen_correct_partial_template : forall cf o p cnt,
+  c_oblig cf = [] -> (forall x, c_ij cf = Some x -> core_value x = true) -> r_templates (c_reg cf) = c04_templates p -> cn_ok o -> o_msgs o = None ->
+  forall k name cenv text, c04_tout (c_ij cf) go_print_text p k name cenv = Some text ->
+  exists t, c04_find p name = Some t
+  /\ (envok cenv -> forall f st cd, (k * c04_D p <= f)%nat -> wok st -> cd <> [] -> (forall q, sc_lookup cd q = cenv q) ->
+        exists st' ws rv, call_enter (walk cf f) (c04_template t) cd st = (Ok rv, st') /\ wrote st st' ws /\ concat_b ws = text
+                          /\ mode st' = mode st /\ ctx st' = ctx st)
+  /\ (forall jd ijv, datarel cenv jd -> (forall v, c_ij cf = Some v -> ijv = to_js v) ->
+        c04_jcall (c04_jprog p cnt) k name jd ijv = Ok text)
+  /\ (forall F st bf, (S (bdepth (ct_body t)) < F)%nat -> bwf [] (ct_body t) = true ->
+        shape st 0 bf (ct_ns_ae t) [[]] (cnt name) -> c04_allopt (j_cur st) = ct_allopt t ->
+        gres (jwalk o F (t_node (c04_template t))) st
+             (c04_tprint (template_header_line o name) (ct_allopt t) (c04_jbody t (cnt name))) 0 t_output (ct_ns_ae t) [[]]
+             (snd (bgen (ct_mode t) t_output c04_body_scope (cnt name) (ct_body t)))).
+Proof. exact gen_correct_partial_template. Qed.
+Print Assumptions C04_gen_correct_partial_template.
+
+(* the entry point: Renderer.Execute (Model/Interp.v's render) of a template of the program, data a map of core values,
+   no write budget: Ok, and the Write calls concatenate to the text of the subset semantics *)
+Theorem C04_go_render_correct : forall cf p,
+  c_oblig cf = [] -> (forall x, c_ij cf = Some x -> core_value x = true) -> r_templates (c_reg cf) = c04_templates p ->
+  forall k name t data_id data first_id text fuel,
+  c04_find p name = Some t ->
+  template_mode (entry_mode (ct_ns_ae t)) (ct_ae t) = ct_mode t ->
+  forallb (fun kv => core_value (snd kv)) data = true ->
+  c04_tout (c_ij cf) go_print_text p (S k) name (fun q => assoc_s q data) = Some text ->
+  (S k * c04_D p <= fuel)%nat ->
+  let r := render cf fuel name data_id data None None first_id in
+  rr_outcome r = Ok tt /\ concat_b (rr_writes r) = text.
+Proof. exact go_render_correct. Qed.
+Print Assumptions C04_go_render_correct.
+
+(* non-vacuity: two templates; .main prints $x, calls .item with data="all" and a parameter, then calls itself on the map $next
+   while there is one (recursion through data="$e"):
+     {template .main}{$x}[{call .item data="all"}{param y: $x + 1 /}{param z}<{$x}{/param}{/call}]{if $next}{call .main data="$next" /}{/if}{/template}
+     {template .item}{msg desc="d"}{$x}-{$y}{/msg}{$z|noAutoescape}{/template} *)
+Definition ex_main : ctmpl :=
+  {| ct_name := b "ns.main"; ct_ns_ae := 1; ct_ae := 0; ct_allopt := false;
+     ct_body := BCons (SPrint (CVar (b "x") []) [])
+               (BCons (SRaw (b "["))
+               (BCons (SCall (b "ns.item") DAll (PVal (b "y") (CBin OAdd (CVar (b "x") []) (CInt 1)) (PCont (b "z") (BCons (SRaw (b "<")) (BCons (SPrint (CVar (b "x") []) []) BNil)) PNil)))
+               (BCons (SRaw (b "]"))
+               (BCons (SIf (CVar (b "next") []) (BCons (SCall (b "ns.main") (DExpr (CVar (b "next") [])) PNil) BNil) ENone) BNil)))) |}.
+Definition ex_item : ctmpl :=
+  {| ct_name := b "ns.item"; ct_ns_ae := 1; ct_ae := 0; ct_allopt := false;
+     ct_body := BCons (SMsg (BCons (SPrint (CVar (b "x") []) []) (BCons (SRaw (b "-")) (BCons (SPrint (CVar (b "y") []) []) BNil))))
+               (BCons (SPrint (CVar (b "z") []) [PNoAutoescape]) BNil) |}.
+Definition ex_prog : list ctmpl := [ex_main; ex_item].
+Definition ex_data : list (bstr * value) := [(b "next", VMap 2 [(b "x", VInt 7)]); (b "x", VInt 4)].
+Definition ex_cf : cfg :=
+  {| c_reg := {| r_templates := c04_templates ex_prog; r_sources := []; r_files := [] |}; c_ij := None; c_oblig := []; c_msgs := None |}.
+Example C04_call_nonvacuous :
+  c04_tout None go_print_text ex_prog 3 (b "ns.main") (fun q => assoc_s q ex_data) = Some (b "4[4-5<4]7[7-8<7]")
+  /\ c04_jcall (c04_jprog ex_prog (fun _ => 0)) 3 (b "ns.main") (to_js (VMap 1 ex_data)) JUndef = Ok (b "4[4-5<4]7[7-8<7]")
+  /\ c04_jcall (c04_jprog_chain ex_prog 0) 3 (b "ns.main") (to_js (VMap 1 ex_data)) JUndef = Ok (b "4[4-5<4]7[7-8<7]")
+  /\ map snd (c04_chain ex_prog 0) = [0; 1]
+  /\ (let r := render ex_cf 40 (b "ns.main") 1 ex_data None None 10 in (rr_outcome r, concat_b (rr_writes r))) = (Ok tt, b "4[4-5<4]7[7-8<7]")
+  /\ render_chunks is_print_tbl (c04_tprint (template_header_line {| o_fmt := ES5; o_msgs := None; o_order := fun l => l |} (b "ns.main")) false (c04_jbody ex_main 0)) = b
+"
+ns.main = function(opt_data, opt_sb, opt_ijData) {
+  var output = '';
+  output += soy.$$escapeHtml(opt_data.x);
+  output += '[';
+  var param_1 = '';
+  param_1 += '\u003C';
+  param_1 += soy.$$escapeHtml(opt_data.x);
+  output += ns.item(soy.$$augmentMap(opt_data, {y: ((opt_data.x) + (1)), z: param_1}), opt_sb, opt_ijData);
+  output += ']';
+  if (opt_data.next) {
+    output += ns.main(opt_data.next, opt_sb, opt_ijData);
+  }
+  return output;
+};
 ".
 Proof. vm_compute. repeat split; reflexivity. Qed.
